@@ -6,7 +6,7 @@
     order_documented text_directives_are_markup_directives index_is_position
     frames_restored frames_restored_binds choice_stack_restored choose_restores_choice_stack
     outer_variables_kept lookup_after_eq_before render_restores_context
-    fuel_irrelevant_impl fuel_irrelevant_doc impl_eq_doc no_output_when_doc_fails no_output_when_impl_fails
+    fuel_irrelevant_impl fuel_irrelevant_doc impl_eq_doc no_output_when_doc_fails no_output_when_impl_fails impl_fails_when_doc_fails
     if_false_removes if_true_transparent for_eq_unrolled choose_first_match_only
     attr_form_eq_elem_form_partial replace_eq_content_strip_partial
     extract_flat_eq_tree construction_pipeline_eq_compile text_parse_eq_tree text_pipeline_eq_compile
@@ -14,6 +14,7 @@
 -/
 import Genshi.Lemmas.TmplSimMain
 import Genshi.Lemmas.TmplSimRev
+import Genshi.Lemmas.TmplSimErr
 import Genshi.Lemmas.TmplEquiv
 import Genshi.Lemmas.TmplExtract
 import Genshi.Lemmas.TmplText
@@ -189,9 +190,10 @@ theorem impl_eq_doc (ns : List TNode) (data : Env) (o : List Event) (hwf : wfNod
 /-
   Failing renders.  Full statement (kept visible): the documentation semantics fails (with an
   error other than `fuel`) iff the implementation model fails.  Proved: when one side fails the
-  other produces no output, for any amount of fuel (below).  Not proved: that the other side
-  then *terminates* with an error rather than running out of every fuel (the error classes are
-  compared by the correspondence check on every run).
+  other produces no output, for any amount of fuel; and documentation fails ⟹ implementation
+  fails (`impl_fails_when_doc_fails`).  Not proved: implementation fails ⟹ the documentation
+  semantics *terminates* with an error rather than running out of every fuel (the error classes
+  are compared by the correspondence check on every run).
 -/
 theorem no_output_when_doc_fails (ns : List TNode) (data : Env) (hwf : wfNodes ns = true) (n : Nat)
     (e : Err) (he : e ≠ .fuel) (h : docRender n ns data = .error e) (m : Nat) (o : List Event) :
@@ -229,6 +231,24 @@ theorem no_output_when_impl_fails (ns : List TNode) (data : Env) (hwf : wfNodes 
       have b := run_mono h2 (by simp) (Nat.le_max_right m m')
       rw [a] at b; cases b
   | ok r1 => simp [h1, bind, Except.bind, pure, Except.pure] at h
+
+/-- When the documentation semantics fails (an expression raises, a `py:when` stands outside a
+    `py:choose`, a macro gets too few arguments, …) the implementation model fails too — it
+    terminates with an error, it does not hang or skip the failing evaluation. -/
+theorem impl_fails_when_doc_fails (ns : List TNode) (data : Env) (hwf : wfNodes ns = true) (n : Nat)
+    (e : Err) (he : e ≠ .fuel) (h : docRender n ns data = .error e) :
+    ∃ m e', implRender m ns data = .error e' ∧ e' ≠ .fuel := by
+  unfold docRender at h
+  have h1 : doc n (.nodes ns) [] ⟨data, [], none⟩ = .error e := by
+    cases hd : doc n (.nodes ns) [] ⟨data, [], none⟩ with
+    | error e1 => simpa [hd, bind, Except.bind] using h
+    | ok r => simp [hd, bind, Except.bind, pure, Except.pure] at h
+  obtain ⟨m, e', hm, he'⟩ := sim_err n (.nodes ns) [] ⟨data, [], none⟩ e h1 he hwf (St.init data) rfl
+    ⟨rfl, rfl, rfl, by intro i dm m h; simp at h⟩ trivial
+  refine ⟨m, e', ?_, he'⟩
+  unfold implRender
+  simp only [taskOf] at hm
+  simp [hm, bind, Except.bind]
 
 /-! ### the documented equivalences, on the implementation model
 
